@@ -1678,6 +1678,7 @@ def inline_private_helpers(prog, fn, wanted=None, depth=2, max_blocks=120, only=
             work.append((j, stack + (cf.path,), dep + 1))
     if not inlined:
         return fn
+    _devirtualise(prog, blocks)
     _thread_jumps(blocks)
     d["locals"] = locals_
     d["blocks"] = blocks
@@ -1685,6 +1686,65 @@ def inline_private_helpers(prog, fn, wanted=None, depth=2, max_blocks=120, only=
     nf = Fn(prog, fn.path, d)
     nf.inlined = inlined
     return nf
+
+
+def _devirtualise(prog, blocks):
+    """After splicing, a helper's function-pointer parameter is a local assigned once from a function item
+    (`group(args, params, FormattedChunk::Highlight)`): the call through it is a call of that item; when the item is a
+    tuple-variant constructor of a local type, the call is the aggregate it builds."""
+    defs = {}
+    for b in blocks:
+        if b.get("cleanup"):
+            continue
+        for st in b["stmts"]:
+            if st["k"] == "assign" and not st["lhs"]["p"]:
+                defs.setdefault(st["lhs"]["l"], []).append(st["rv"])
+        t = b["term"]
+        if t["k"] == "call" and not t["dest"]["p"]:
+            defs.setdefault(t["dest"]["l"], []).append(None)
+    n = 0
+    for i, b in enumerate(blocks):
+        t = b["term"]
+        if b.get("cleanup") or t["k"] != "call" or t.get("dispatch") != "fnptr" or "func" not in t or t.get("target") is None:
+            continue
+        pl = t["func"].get("copy") or t["func"].get("move")
+        item = None
+        for _ in range(8):
+            if pl is None or pl["p"]:
+                break
+            ds = defs.get(pl["l"], [])
+            if len(ds) != 1 or ds[0] is None:
+                break
+            rv = ds[0]
+            if rv["k"] == "use":
+                pl = rv["a"].get("copy") or rv["a"].get("move")
+                continue
+            if rv["k"] == "cast" and "ReifyFnPointer" in (rv.get("kind") or "") and rv["a"].get("const", {}).get("kind") == "fn":
+                item = rv["a"]["const"]
+            break
+        if item is None:
+            continue
+        path = item.get("path") or ""
+        par, _, last = path.rpartition("::")
+        adt = prog.adts.get(par)
+        nb = dict(b)
+        if adt is not None and any(v["name"] == last for v in adt.get("variants", [])) and path not in prog.fns:
+            v = [v for v in adt["variants"] if v["name"] == last][0]
+            if len(v["fields"]) != len(t["args"]):
+                continue
+            nb["stmts"] = list(b["stmts"]) + [{"k": "assign", "lhs": t["dest"], "rv": {"k": "agg", "agg": "adt", "adt": par, "adt_local": True, "variant": last,
+                                                                                         "field_names": [f_["name"] for f_ in v["fields"]], "fields": list(t["args"])}, "at": t.get("at")}]
+            nb["term"] = {"k": "goto", "target": t["target"], "at": t.get("at")}
+        elif item.get("resolved_local") and (item.get("resolved") or path) in prog.fns:
+            tgt = item.get("resolved") or path
+            nt = {k_: v_ for k_, v_ in t.items() if k_ != "func"}
+            nt.update({"decl": path, "decl_local": True, "dispatch": "static", "resolved": tgt, "resolved_local": True, "generic_args": []})
+            nb["term"] = nt
+        else:
+            continue
+        blocks[i] = nb
+        n += 1
+    return n
 
 
 # --------------------------------------------------------------------------
@@ -1947,9 +2007,10 @@ def _thread_jumps(blocks, max_new=240, rounds=48):
 
 ITER = "core::iter::traits::iterator::Iterator::"
 LAZY = ("map", "filter_map", "filter", "inspect")
-CONSUMERS = ("collect", "for_each", "fold", "any", "all", "find", "find_map", "position", "nth", "count")
-BY_REF_CONSUMERS = ("any", "all", "find", "find_map", "position", "nth")
-PRED_CONSUMERS = ("for_each", "any", "all", "find", "find_map", "position")
+CONSUMERS = ("collect", "for_each", "fold", "any", "all", "find", "find_map", "position", "nth", "count", "try_for_each")
+BY_REF_CONSUMERS = ("any", "all", "find", "find_map", "position", "nth", "try_for_each")
+PRED_CONSUMERS = ("for_each", "any", "all", "find", "find_map", "position", "try_for_each")
+#   base.try_for_each(f)  (Result)  ==   loop { match base.next() { None => break Ok(()), Some(x) => { let r = f(x); if r.is_err() { break r } } } }
 #   base.any(p)        ==   loop { match base.next() { None => break false, Some(x) => if p(x) { break true } } }      (all: dually)
 #   base.find(p)       ==   loop { match base.next() { None => break None, Some(x) => if p(&x) { break Some(x) } } }
 #   base.find_map(f)   ==   loop { match base.next() { None => break None, Some(x) => if let Some(y) = f(x) { break Some(y) } } }
@@ -2036,6 +2097,8 @@ def desugar_adaptors(prog, fn):
             continue
         if kind == "collect" and not (t.get("dest_ty") or "").startswith("alloc::vec::Vec<"):
             continue
+        if kind == "try_for_each" and not (t.get("dest_ty") or "").startswith("core::result::Result<(), "):
+            continue
         # walk the lazy chain backwards
         stages = []
         cur = t["args"][0]
@@ -2106,6 +2169,9 @@ def desugar_adaptors(prog, fn):
             exit_stmts.append(assign(dest, {"k": "use", "a": {"const": {"kind": "bool", "value": kind == "all", "ty": "bool"}}}, at))
         elif kind in ("find", "find_map", "position", "nth"):
             exit_stmts.append(assign(dest, opt_none(), at))
+        elif kind == "try_for_each":
+            exit_stmts.append(assign(dest, {"k": "agg", "agg": "adt", "adt": "core::result::Result", "adt_local": False, "variant": "Ok", "field_names": ["0"],
+                                            "fields": [{"const": {"kind": "zst", "ty": "()"}}]}, at))
         elif kind == "count":
             acc = new_local("usize")
             exit_stmts.append(assign(dest, {"k": "use", "a": {"move": {"l": acc, "p": []}}}, at))
@@ -2146,6 +2212,12 @@ def desugar_adaptors(prog, fn):
             hit = new_block([assign(dest, {"k": "use", "a": {"const": {"kind": "bool", "value": kind == "any", "ty": "bool"}}}, at)], {"k": "goto", "target": t["target"], "at": at})
             sw = new_block([], {"k": "switch", "discr": {"move": {"l": r, "p": []}}, "discr_ty": "bool",
                                 "arms": [{"value": 0, "target": H if kind == "any" else hit}], "otherwise": hit if kind == "any" else H, "at": at})
+            tail_entry = emit_call(cons_callable, [xn], r, sw, at)
+        elif kind == "try_for_each":
+            r, dd = new_local(t.get("dest_ty") or "core::result::Result<?>"), new_local("isize")
+            hit = new_block([assign(dest, {"k": "use", "a": {"move": {"l": r, "p": []}}}, at)], {"k": "goto", "target": t["target"], "at": at})
+            sw = new_block([assign(dd, {"k": "discr", "place": {"l": r, "p": []}, "ty": "core::result::Result<?>", "adt": "core::result::Result", "variants": {"0": "Ok", "1": "Err"}}, at)],
+                           {"k": "switch", "discr": {"move": {"l": dd, "p": []}}, "discr_ty": "isize", "arms": [{"value": 0, "target": H}, {"value": 1, "target": hit}], "otherwise": unreach, "at": at})
             tail_entry = emit_call(cons_callable, [xn], r, sw, at)
         elif kind == "find":
             r, rx = new_local("bool"), new_local("&?")
